@@ -267,6 +267,17 @@ def reader_check(ctx, parsed, graphs, fin_graphs):
             if not any(n in bynode and bynode[n].state == "CANCELLED" for n in sinks):
                 unfinished = True
         cause["unfinished_graph_with_cancelled_nonsink"] = unfinished
+        # ... or by a TASK_CANCEL row written for a leftover non-sink task *after* its graph's
+        # TASK_GRAPH_FINISHED row (the reader then marks the finished graph cancelled again)?
+        seen_fin = set()
+        late_cancel = False
+        for r in parsed:
+            if len(r) > 2 and r[1] == "TASK_GRAPH_FINISHED":
+                seen_fin.add(r[2])
+            elif len(r) > 5 and r[1] == "TASK_CANCEL" and r[5] in seen_fin:
+                late_cancel = True
+        if not unfinished:
+            cause["cancel_row_after_graph_finished"] = late_cancel
         for k in ("closed_loop", "conditional", "cancellations"):
             cause.pop(k, None)
         ctx.violate("C08", "reader_rejects_trace", f"CSVReader.parse_events raised {msg[:200]} "
